@@ -656,9 +656,9 @@ Fixpoint seqf (fuel : nat) (s : state) (y x : nat) : bool :=
                        | Some u => match b with Some w => seqf f s u w | None => false end
                        | None => match b with None => true | Some _ => false end
                        end in
-          let comps_ok :=
+          let comps_ok :=       (* componententity.cpp: doEquals — one-to-one greedy matching, other's child ->equals(this child) *)
               Nat.eqb (List.length (o_comps oy)) (List.length (o_comps ox)) &&
-              forallb (fun cy => existsb (fun cx => Nat.eqb cx cy || seqf f s cx cy) (o_comps ox)) (o_comps oy) in
+              greedy (fun cy cx => seqf f s cx cy) (o_comps oy) (pad (List.length (o_comps oy)) (o_comps ox)) in
           match o_kind oy with
           | KUnits => true
           | KVar => sub (o_vunits oy) (o_vunits ox)
